@@ -269,6 +269,11 @@ def build_reps(ir, onnx, serde, code, shape, pats, ref_bytes, tmpdir, case, clea
                 view = bigger[size: 2 * size].reshape(shape)
                 assert view.storage_offset() == size
                 yield "torch_view_with_storage_offset", _TORCH[1].TorchTensor(view, name="t"), {"layout": True}
+            if refenc.DT[code][1] == "c" and size > 0:
+                # a lazily conjugated view (what torch.conj() returns): the values are the conjugates of what the memory holds
+                cj = torch.conj(torch.conj(tt.raw).resolve_conj().contiguous())
+                assert cj.is_conj()
+                yield "torch_conjugate_view", _TORCH[1].TorchTensor(cj, name="t"), {"layout": True}
             if len(shape) >= 2 and size > 1:
                 nc = tt.raw.transpose(0, 1).contiguous().transpose(0, 1)  # equal content, not contiguous
                 yield "torch_non_contiguous", _TORCH[1].TorchTensor(nc, name="t"), {"layout": True}
